@@ -256,7 +256,7 @@ func ReadPatchString(s string) (Diff, error) {
 			diff = append(diff, e)
 		} else {
 			i := len(diff) - 1
-			if diff[i].Path.JsonNode().Equals(e.Path.JsonNode()) {
+			if diff[i].Path.JsonNode().Equals(e.Path.JsonNode()) && canCoalesce(diff[i], e) {
 				diff[i].Remove = append(diff[i].Remove, e.Remove...)
 				// Must be done in reverse order
 				diff[i].Add = append(e.Add, diff[i].Add...)
@@ -265,6 +265,28 @@ func ReadPatchString(s string) (Diff, error) {
 			}
 		}
 	}
+}
+
+// canCoalesce reports whether the diff element e, read from the ops
+// following those of prev on the same path, continues the same hunk. It
+// does not when it brings context tests of its own, which would be lost,
+// or when it removes a value after prev has already added one, because a
+// hunk removes before it adds and the ops would be reordered.
+func canCoalesce(prev, e DiffElement) bool {
+	for _, c := range e.Before {
+		if !isVoid(c) {
+			return false
+		}
+	}
+	for _, c := range e.After {
+		if !isVoid(c) {
+			return false
+		}
+	}
+	if len(e.Remove) > 0 && len(prev.Add) > 0 {
+		return false
+	}
+	return true
 }
 
 // setPatchDiffElementContext detects before and/or after context and
